@@ -49,7 +49,7 @@ def Field(token: tokens.Field, state):
 
     if token.name:
         # It’s a variable
-        return state.get_variable(token.name)
+        return state.get_variable(token.name) or ''
 
     return ''
 
